@@ -2029,7 +2029,10 @@ MANIFEST = {
                   'change_constants returns is proved to be the unique solution of a relational specification of "built from '
                   'the changed constants" that shares no definition with the model (round 5), and scopes the modelled / '
                   'kind-aware == calls equal are proved to provide the same names, to report the same volatile parameters '
-                  'and to denote the same mapping; the model is tied '
+                  'and to denote the same mapping; the computed denotation is proved (round 6) to be the unique mapping '
+                  'with the pointwise property the statement words (mapping expressions valued in the mapping of the OUTER '
+                  'scope, innermost definition wins, loop index shadows, joint entries from their sub scope), and lookup / '
+                  'membership / dictionary view of the model are stated against that relation; the model is tied '
                   'to the code by an '
                   'exact correspondence check of operation histories on one object graph (tree model, cache-free paths '
                   'and heap model) and of == / != / hash on twin, retyped and cross-class scopes.',
@@ -2040,7 +2043,8 @@ MANIFEST = {
                   'returned scopes are not observed. The specification oracle check_spec uses Spec.v / SpecChange.v only '
                   '(shared with the model: data types, association-list helpers, expression evaluation and free variables). '
                   'The history / cache / heap theorems are refinement links between operational models; the link to the '
-                  'specification is C13_views, C13_volatile, C13_change_meaning. See notes/C13.md, Clause map.',
+                  'specification is C13_views, C13_volatile, C13_change_meaning, C13_denotation_meaning / C13_lookup_meaning. '
+                  'See notes/C13.md, Clause map.',
     'technique': 'Coq proof (induction over the scope stack, cache-refinement invariant on tree and heap, substitution '
                  'lemma, permutation argument for hashes) + '
                  'correspondence check',
